@@ -186,6 +186,42 @@ def _run(op, f):
         k = need('add_discrete_function_python')
         return [list(v) for v in guarded(lambda: k(*a), a)]
     # ---------------- function classes (public) ----------------
+    if op in ('avg_pwc', 'avg_pwl'):
+        from pyspike.DiscreteFunc import average_profile
+        if op == 'avg_pwc':
+            fs = [PieceWiseConstFunc(arr(f[k]), arr(f[k + 1])) for k in range(0, len(f) - 1, 2)]
+        else:
+            fs = [PieceWiseLinFunc(arr(f[k]), arr(f[k + 1]), arr(f[k + 2])) for k in range(0, len(f) - 2, 3)]
+        try:
+            r = guarded(lambda: average_profile(fs), fs)
+        except AssertionError:
+            return 'reject'
+        return [list(r.x), list(r.y)] if op == 'avg_pwc' else [list(r.x), list(r.y1), list(r.y2)]
+    if op in ('mul_pwc', 'mul_pwl', 'mul_disc'):
+        c = float(f[-1][0])
+        if op == 'mul_pwc':
+            g = PieceWiseConstFunc(arr(f[0]), arr(f[1]))
+        elif op == 'mul_pwl':
+            g = PieceWiseLinFunc(arr(f[0]), arr(f[1]), arr(f[2]))
+        else:
+            g = DiscreteFunc(arr(f[0]), arr(f[1]), arr(f[2]))
+        h = g.copy()
+        with contextlib.redirect_stdout(io.StringIO()):
+            ret = h.mul_scalar(c)
+        if ret is not None:
+            raise Mutated('mul_scalar returned %r instead of None' % (ret,))
+        if not _same(_snap([g])[0], _snap([g.copy()])[0]):
+            raise Mutated('copy() is not equal to its original')
+        # the copy was scaled, the original must be untouched (copy() is deep)
+        ref = (PieceWiseConstFunc(arr(f[0]), arr(f[1])) if op == 'mul_pwc' else
+               PieceWiseLinFunc(arr(f[0]), arr(f[1]), arr(f[2])) if op == 'mul_pwl' else DiscreteFunc(arr(f[0]), arr(f[1]), arr(f[2])))
+        if not _same(_snap([g])[0], _snap([ref])[0]):
+            raise Mutated('scaling a copy changed the original')
+        if op == 'mul_pwc':
+            return [list(h.x), list(h.y)]
+        if op == 'mul_pwl':
+            return [list(h.x), list(h.y1), list(h.y2)]
+        return [list(h.x), list(h.y), list(h.mp)]
     if op.startswith('pwc_'):
         g = PieceWiseConstFunc(arr(f[0]), arr(f[1])); rest = f[2:]
         return _func_op(op[4:], g, rest)
@@ -393,6 +429,7 @@ EXACT = {
     # fields compared exactly (times, multiplicities, counts, marks); others to REL_TOL
     'isi_profile': (0,), 'spike_profile': (0,), 'coinc_profile': (0, 1, 2), 'order_profile': (0, 1, 2),
     'coinc_single': (0,), 'dir_profile': (0, 1), 'add_pwc': (0,), 'add_pwl': (0,), 'add_disc': (0, 2),
+    'avg_pwc': (0,), 'avg_pwl': (0,), 'mul_pwc': (0,), 'mul_pwl': (0,), 'mul_disc': (0, 2),
     'isi_profile_bi': (0,), 'isi_profile_multi': (0,), 'spike_profile_bi': (0,), 'spike_profile_multi': (0,),
     'sync_profile_bi': (0, 1, 2), 'sync_profile_multi': (0, 1, 2), 'order_profile_bi': (0, 1, 2),
     'order_profile_multi': (0, 1, 2), 'pwc_plot': (0,), 'pwl_plot': (0,),
